@@ -171,8 +171,9 @@ public:
         }
         if (!full()) {
             _storage.push_back(etl::move(value));
-            auto* pos = rotate(p, _storage.end() - 1, _storage.end());
-            return make_pair(pos, true);
+            // rotate() returns `last` when p is already the new element (insertion at the end): p itself is the position
+            rotate(p, _storage.end() - 1, _storage.end());
+            return make_pair(p, true);
         }
 
         return pair<iterator, bool>(nullptr, false);
